@@ -54,7 +54,7 @@ func (fr *frame) get(v ssa.Value) Value {
 
 func (e *Exec) global(g *ssa.Global) Value {
 	if p, ok := e.globals[g]; ok {
-		return p
+		return addrOfCell(p)
 	}
 	if g.Pkg != nil && !e.w.ssaExecPkg(g.Pkg.Pkg.Path()) {
 		key := g.Pkg.Pkg.Path() + "." + g.Name()
@@ -71,6 +71,15 @@ func (e *Exec) global(g *ssa.Global) Value {
 	p := new(Value)
 	*p = e.zero(deref(g.Type()))
 	e.globals[g] = p
+	return addrOfCell(p)
+}
+
+// addrOfCell returns the address of an engine cell; a cell holding a native struct is
+// addressed natively so that native methods see the same memory.
+func addrOfCell(p *Value) Value {
+	if n, ok := (*p).(Native); ok && (n.V.Kind() == reflect.Struct || n.V.Kind() == reflect.Array) && n.V.CanAddr() {
+		return Native{n.V.Addr()}
+	}
 	return p
 }
 
@@ -654,7 +663,7 @@ func (e *Exec) fieldAddr(x Value, field int, st types.Type) Value {
 			}
 			panic(fmt.Sprintf("FieldAddr on %T", *p))
 		}
-		return &s[field]
+		return addrOfCell(&s[field])
 	case Native:
 		if p.V.Kind() != reflect.Ptr {
 			panic("FieldAddr on non-pointer native")
@@ -687,14 +696,14 @@ func (e *Exec) indexAddr(x Value, idx *Term, ins *ssa.IndexAddr) Value {
 	switch a := x.(type) {
 	case SliceV:
 		i := e.boundsIndex(idx, len(a.Data), "slice")
-		return &a.Data[i]
+		return addrOfCell(&a.Data[i])
 	case *Value:
 		if a == nil {
 			e.fault("nil pointer dereference (array index)")
 		}
 		arr := (*a).(Array)
 		i := e.boundsIndex(idx, len(arr), "array")
-		return &arr[i]
+		return addrOfCell(&arr[i])
 	case Native:
 		v := a.V
 		if v.Kind() == reflect.Ptr {
